@@ -29,7 +29,7 @@ def sim_cases():
     ops = [
         g.op_apply(limits=True, soft=SOFT, hard=HARD), g.op_apply(limits=True, soft=SOFT, hard=HARD), g.op_apply(limits=True, soft=SOFT, hard=HARD),
         g.run, g.run, g.run, g.adv_lim, g.adv_lim, g.adv_lim, g.adv,
-        g.scan, g.scan, g.scan, g.work, g.feed,
+        g.scan, g.scan, g.scan, g.work, g.feed, g.scanrace, g.scanrace,
         g.worker_ops[0], g.worker_ops[2], g.worker_ops[4], g.tick, g.op_map(),
     ]
     return g.history(cfg, ops, max_ops=60, min_ops=12)
@@ -48,4 +48,4 @@ EXPLORE = {'sim': (sim_cases(), execute_sim), 'real': (rp.c06_cases(), rp.execut
 def run(ctx):
     ctx.explore('sim', sim_cases(), execute_sim, n=ctx.pick(250, 25000))
     ctx.explore('real', rp.c06_cases(), rp.execute_c06, n=ctx.pick(1, 30),
-                shrink_budget=6)
+                shrink_budget=6, reexecute_confirm=2)
